@@ -78,7 +78,7 @@ Proof.
       cbn [outcome_state]; try apply acc_mono_refl.
     match goal with |- context [commit_transaction ?a ?b ?c ?d ?e ?g ?h] => destruct (commit_transaction a b c d e g h) as [s2 [r|]] eqn:E end;
       cbn [outcome_state]; rewrite (commit_accounts _ _ _ _ _ _ _ _ _ E); apply acc_mono_refl.
-  - apply (upsert_account_mono (f_acc_hist f) now (s_accounts s) (s_ahist s) a md None None None).
+  - apply (upsert_account_mono (f_acc_hist f) now (s_accounts s) (s_ahist s) a md (Some now) None None).
   - destruct (find_tx (s_txs s) id) as [t|]; [|apply acc_mono_refl]. destruct (mcontains (t_meta t) md); simpl; apply acc_mono_refl.
   - destruct (find_account (s_accounts s) a); simpl; [|apply acc_mono_refl].
     apply acc_mono_map. intros y. destruct (String.eqb (a_addr y) a); split; try reflexivity; simpl; lia.
